@@ -127,6 +127,11 @@ var benchMethods = []methodSpec{
 		rule: &RuleSpec{Method: "GET", Template: "/v1/page/{string_value}"}},
 	{name: "PutPage", in: msgBodyIn, out: msgBodyOu,
 		rule: &RuleSpec{Method: "PUT", Template: "/v1/page/{name}", Body: "file", ResponseBody: "file"}},
+	// google.protobuf.Any in request and response: transcoding it between proto and JSON goes through
+	// the service's type resolver (type URLs with any prefix)
+	{name: "AnyEcho", in: benchPkg + ".AnyBox", out: benchPkg + ".AnyBox",
+		rule: &RuleSpec{Method: "POST", Template: "/v1/any", Body: "*"}},
+	{name: "AnyStream", in: benchPkg + ".AnyBox", out: benchPkg + ".AnyBox", cstream: true, sstrm: true},
 }
 
 // routeMethods: un-annotated service for generated rule tables.
@@ -170,12 +175,18 @@ func buildFileProto(withAnnotations bool) *descriptorpb.FileDescriptorProto {
 			"vanguard/test/v1/test.proto",
 			"google/api/annotations.proto",
 			"google/api/httpbody.proto",
+			"google/protobuf/any.proto",
 		},
 		MessageType: []*descriptorpb.DescriptorProto{
 			{Name: strp("BodyIn"), Field: []*descriptorpb.FieldDescriptorProto{
 				{Name: strp("name"), JsonName: strp("name"), Number: i32p(1), Label: &lbl, Type: &tStr},
 				{Name: strp("file"), JsonName: strp("file"), Number: i32p(2), Label: &lbl, Type: &tMsg, TypeName: strp(".google.api.HttpBody")},
 				{Name: strp("seq"), JsonName: strp("seq"), Number: i32p(3), Label: &lbl, Type: &tI32},
+			}},
+			{Name: strp("AnyBox"), Field: []*descriptorpb.FieldDescriptorProto{
+				{Name: strp("payload"), JsonName: strp("payload"), Number: i32p(1), Label: &lbl, Type: &tMsg, TypeName: strp(".google.protobuf.Any")},
+				{Name: strp("list"), JsonName: strp("list"), Number: i32p(2), Label: descriptorpb.FieldDescriptorProto_LABEL_REPEATED.Enum(), Type: &tMsg, TypeName: strp(".google.protobuf.Any")},
+				{Name: strp("note"), JsonName: strp("note"), Number: i32p(3), Label: &lbl, Type: &tStr},
 			}},
 			{Name: strp("Duration"), Field: []*descriptorpb.FieldDescriptorProto{
 				{Name: strp("text"), JsonName: strp("text"), Number: i32p(1), Label: &lbl, Type: &tStr},
